@@ -38,7 +38,7 @@ grey_dilation + refine_com_arr (check_pipeline), executed on two placements
 (model_moved) and on the transpose (model_transposed); the verified monitor
 check_moved / check_transposed re-decides the table relation on locate's own output.
 """
-import itertools, json, math, warnings
+import itertools, json, math, warnings, os, sys, hashlib
 import numpy as np
 from fractions import Fraction
 import common
@@ -46,6 +46,18 @@ from common import cZ, cQ, clist, cbool
 
 IMPORTS = ("From TP Require Import Model.Dilation Model.COM Model.COMCheck "
            "Model.Equivariance Model.EquivarianceCheck.")
+
+# route T for the head of locate (tools/py2coq_locatehead.py -> Gen/locatehead.v; Proofs/LocateheadGen.v)
+TRANSLATOR_H = os.path.join(common.VERIF, 'tools', 'py2coq_locatehead.py')
+GEN_H = os.path.join(common.COQ, 'Gen', 'locatehead.v')
+IMPORTS_H = ("From Coq Require Import String.\nFrom TP Require Import Model.PyLocatehead Model.LocateheadCheck.\n"
+             "From TP Require Model.PyPreproc.")
+HEAD_CODES = {1: 'model and locate: number of rows', 2: 'model and locate: a position', 3: 'model and locate: a mass',
+              4: 'locate refused (ValueError), the model did not', 5: 'the model refused or raised, locate did not',
+              6: 'locate and the model refuse with different messages',
+              11: 'generated locate and model: number of rows', 12: 'generated locate and model: a position',
+              13: 'generated locate and model: a mass', 14: 'generated locate raised, the model did not',
+              15: 'the model raised, generated locate did not', 16: 'generated locate and the model refuse differently'}
 
 SIG_F13 = 'locate: ecc differs under transposition (cosmask centre weight)'
 SIG_F15 = 'locate: where_close tie (equal mass, equal coordinate sum) resolved by row order differs under transposition'
@@ -1273,9 +1285,191 @@ def report(chk, res, replay):
     return False
 
 
+# ------------------------------------------------------------------ route T: the head of locate
+def regenerate_head(chk):
+    """re-run tools/py2coq_locatehead.py on the current source; returns (ok, text-or-log)"""
+    rc, out = common.sh([sys.executable, TRANSLATOR_H, '--repo', common.REPO, '--stdout'], timeout=120)
+    if rc != 0:
+        return False, out
+    with common.Lock(os.path.join(common.COQ, '.build.lock')):
+        old = open(GEN_H).read() if os.path.exists(GEN_H) else None
+        if old != out:
+            tmp = GEN_H + '.tmp%d' % os.getpid()
+            with open(tmp, 'w') as f:
+                f.write(out)
+            os.replace(tmp, GEN_H)
+            chk.tally('Gen/locatehead.v rewritten (source differs from last run)')
+        else:
+            chk.tally('Gen/locatehead.v unchanged')
+    return True, out
+
+
+def build(chk):
+    """translator -> cone of Properties/C09.v.  A translation failure or a failing re-proof is reported through
+    chk.proof_broken; the correspondence run continues either way (so that a concrete failing input is still searched for)"""
+    ok, text = regenerate_head(chk)
+    if not ok:
+        chk.proof_broken('translation tools/py2coq_locatehead.py (the head of locate in trackpy/feature.py, or convert_to_int / '
+                         'scale_to_gamut / invert_image in trackpy/preprocessing.py, left the translatable subset)', text)
+        chk.build = dict(obligations=0, discharged=0, assumptions=[], files=[], theorems=[])
+    else:
+        b = None
+        for attempt in range(3):
+            b = chk.coq()
+            if open(GEN_H).read() == text:
+                break
+            # another run (different TRACKPY_REPO) rewrote the generated file in between: redo
+            chk.violations = [v for v in chk.violations if not v[0].startswith('proof:')]
+            regenerate_head(chk)
+        chk.notes.append('Gen/locatehead.v sha1 %s generated from %s' % (hashlib.sha1(text.encode()).hexdigest()[:12], common.REPO))
+        if not b['ok']:
+            with common.Lock(os.path.join(common.COQ, '.build.lock')):
+                rc, out = common.sh('timeout 600 make Proofs/LocateheadGen.vo 2>&1 | tail -25', timeout=630, cwd=common.COQ)
+            chk.notes.append('make Proofs/LocateheadGen.vo (generated head of locate = model): ' + out[-2500:])
+    # the executable models of the correspondence run, needed whatever happened above
+    want = ['Model/EquivarianceCheck.vo', 'Model/LocateWholeCheck.vo', 'Model/COMCheck.vo', 'Model/LocateheadCheck.vo']
+    with common.Lock(os.path.join(common.COQ, '.build.lock')):
+        rc, out = common.sh('timeout 900 make %s 2>&1 | tail -25' % ' '.join(want), timeout=930, cwd=common.COQ)
+    head_ok = os.path.exists(os.path.join(common.COQ, 'Model', 'LocateheadCheck.vo')) and rc == 0
+    if not head_ok:
+        chk.notes.append('make of the executable models: ' + out[-1500:])
+    return head_ok, ok
+
+
+def cstring(t):
+    assert all(32 <= ord(ch) < 127 for ch in t), t
+    return '"%s"%%string' % t.replace('"', '""')
+
+
+def carg(v, f):
+    """scalar-or-sequence argument"""
+    if isinstance(v, (tuple, list)):
+        return "(PyPreproc.PySeq %s)" % clist([f(x) for x in v])
+    return "(PyPreproc.PyScalar %s)" % f(v)
+
+
+def gen_head_case(rng):
+    """a small 2-D integer image with 1-3 blobs of different brightness and the Python-level arguments of locate"""
+    rng = np.random.default_rng(rng.getrandbits(64))     # chk.rng is a random.Random: derive a numpy generator from it
+    kind = ['uint8', 'uint8', 'uint16', 'int16', 'int16'][int(rng.integers(5))]
+    h, w = int(rng.integers(11, 19)), int(rng.integers(11, 19))
+    img = np.zeros((h, w), dtype=np.int64)
+    yy, xx = np.mgrid[0:h, 0:w]
+    for k in range(int(rng.integers(1, 4))):
+        cy, cx = rng.uniform(2, h - 3), rng.uniform(2, w - 3)
+        amp = int(rng.integers(40, 200)) + 7 * k
+        sig = rng.uniform(0.7, 1.6)
+        img += np.round(amp * np.exp(-((yy - cy) ** 2 + (xx - cx) ** 2) / (2 * sig * sig))).astype(np.int64)
+    if rng.random() < 0.5:
+        img += (rng.random((h, w)) < 0.08) * rng.integers(1, 6, (h, w))
+    if kind == 'int16' and rng.random() < 0.7:
+        img -= (rng.random((h, w)) < 0.15) * rng.integers(1, 30, (h, w))      # negative pixels (clipped by locate)
+    img = np.clip(img, np.iinfo(kind).min, np.iinfo(kind).max).astype(kind)
+    u = rng.random()
+    if u < 0.5:
+        diameter = int(rng.choice([3, 5]))
+    elif u < 0.8:
+        diameter = (int(rng.choice([3, 5])), int(rng.choice([3, 5])))
+    elif u < 0.9:
+        diameter = int(rng.choice([4, 6])) if rng.random() < 0.5 else (3, int(rng.choice([4, 6])))   # refused: even
+    else:
+        diameter = (3, 3, 3) if rng.random() < 0.5 else (5,)                                           # refused: length
+    p = dict(diameter=diameter, max_iterations=int(rng.integers(1, 6)), percentile=float(rng.choice([64, 64, 50, 80, 30.5])))
+    u = rng.random()
+    if u < 0.25:
+        p['separation'] = float(rng.choice([3, 4, 4.5, 6, 7.25]))
+    elif u < 0.45:
+        p['separation'] = (float(rng.choice([3, 4.5, 6])), float(rng.choice([4, 5, 7.5])))
+    elif u < 0.5:
+        p['separation'] = (4.0, 4.0, 4.0)                                                              # refused: length
+    u = rng.random()
+    if u < 0.25:
+        p['smoothing_size'] = int(rng.choice([3, 7, 9, 11]))
+    elif u < 0.4:
+        p['smoothing_size'] = (int(rng.choice([3, 7, 11])), int(rng.choice([5, 9, 13])))
+    elif u < 0.45:
+        p['smoothing_size'] = (5,)                                                                     # refused: length
+    u = rng.random()
+    if u < 0.15:
+        p['noise_size'] = (1.0, 2.0)
+    elif u < 0.2:
+        p['noise_size'] = (1.0, 1.0, 1.0)                                                              # refused: length
+    if rng.random() < 0.4:
+        p['minmass'] = float(rng.choice([20, 60.5, 150]))
+    if rng.random() < 0.3:
+        p['topn'] = int(rng.choice([1, 2]))
+    return dict(kind='head', image=img, params=p)
+
+
+def j_head(c):
+    return dict(kind='head', dtype=str(c['image'].dtype), image=c['image'].tolist(), params=c['params'])
+
+
+def unj_head(j):
+    p = {k: (tuple(v) if isinstance(v, list) else v) for k, v in j['params'].items()}
+    return dict(kind='head', image=np.array(j['image'], dtype=j['dtype']), params=p)
+
+
+def locate_head_impl(img, p):
+    """locate(preprocess=False, characterize=False, engine='python'): rows (y, x, mass) or the ValueError message"""
+    import trackpy as tp
+    kw = {k: v for k, v in p.items() if k != 'diameter'}
+    with warnings.catch_warnings():
+        warnings.simplefilter('ignore')
+        try:
+            f = tp.locate(img.copy(), p['diameter'], preprocess=False, characterize=False, engine='python', **kw)
+        except ValueError as e:
+            return str(e)
+    return [(float(r['y']), float(r['x']), float(r['mass'])) for _, r in f.iterrows()]
+
+
+def head_term(c, obs):
+    img, p = c['image'], c['params']
+    clipped = np.clip(img.astype(np.int64), 0, None)
+    thr = threshold_of(clipped, p['percentile'])
+    if isinstance(obs, str):
+        o = "(inr %s)" % cstring(obs)
+    else:
+        o = "(inl %s)" % (clist(["(%s, %s)" % (clist([cQ(y), cQ(x)]), cQ(m)) for (y, x, m) in obs]) if obs else "(@nil (list Q * Q))")
+    copt = lambda v, f: "None" if v is None else "(Some %s)" % f(v)
+    return "(mkHC %s %s %s %s %s %s %s %s %s %s %s %s %s)" % (
+        cQ(0.0 if thr is None else thr), cbool(img.dtype.kind == 'i'), cZ(img.dtype.itemsize * 8),
+        clist([czl(r) for r in img.astype(np.int64).tolist()]) if img.size else "(@nil (list Z))",
+        carg(p['diameter'], cZ), copt(p.get('minmass'), cQ), copt(p.get('separation'), lambda v: carg(v, cQ)),
+        carg(p.get('noise_size', 1), lambda v: cQ(float(v))), copt(p.get('smoothing_size'), lambda v: carg(v, cZ)),
+        cQ(p['percentile']), copt(p.get('topn'), common.cnat), cZ(p['max_iterations']), o)
+
+
+def run_head(chk, cases, use_gen=True):
+    """harness (H): locate's rows / refusal against Model/LocatePipe2.locate_py and against the GENERATED whole locate"""
+    terms, used = [], []
+    for c in cases:
+        obs = locate_head_impl(c['image'], c['params'])
+        if not isinstance(obs, str):
+            # equal masses are decided by row order in where_close / argsort (F15-F17): not part of this comparison
+            full = locate_head_impl(c['image'], {k: v for k, v in c['params'].items() if k != 'topn'})
+            ms = [m for (_, _, m) in full]
+            if len(set(ms)) != len(ms):
+                chk.tally('head: equal masses (skipped)')
+                continue
+        terms.append(head_term(c, obs)); used.append((c, obs))
+    codes = common.coq_eval_lists(chk.work, IMPORTS_H, '(check_head_with %s)' % cbool(use_gen), terms, tag='head', shard=40)
+    for (c, obs), code in zip(used, codes):
+        chk.count(('H', j_head(c)), not isinstance(obs, str) and len(obs) >= 1)
+        chk.tally('head: %s' % ('refusal: ' + obs[:40] if isinstance(obs, str) else 'rows=%s' % ('0' if not obs else '1' if len(obs) == 1 else '2+')))
+        chk.tally('head dtype %s' % c['image'].dtype)
+        if code != 0:
+            what = HEAD_CODES.get(code, 'code %d' % code)
+            chk.violation('locate head: ' + what,
+                          'locate(preprocess=False, characterize=False, engine=python) against the model of its head '
+                          '(validation, defaults, clipping, margin; Model/LocatePipe2.locate_py) and the generated locate: ' + what,
+                          dict(j_head(c), observed=obs, code=code))
+    return used
+
+
 def run(chk):
     common.quiet_trackpy()
-    chk.coq()
+    head_ok, translated = build(chk)
     rng = chk.rng
     quick = chk.tier == 'quick'
 
@@ -1444,6 +1638,14 @@ def run(chk):
             chk.tally('transposition: where_close tie (F15)')
         if cx is not None:
             report(chk, r, j_transposition(cx))
+    # ---- (H) the head of locate: Python-level arguments (validation, defaults, refusals, clipping of signed images, margin)
+    # against Model/LocatePipe2.locate_py and the generated whole locate (drawn last: the streams above are unchanged)
+    if head_ok:
+        hc = [gen_head_case(rng) for _ in range(70 if quick else 600)]
+        run_head(chk, hc, use_gen=translated)   # after a failed translation Gen/locatehead.v is stale: model against locate only
+        chk.sample(dict(kind='head', dtype=str(hc[0]['image'].dtype), shape=list(hc[0]['image'].shape), params=hc[0]['params']))
+    else:
+        chk.tally('head: executable model not available (see the proof-broken report)')
     chk.coverage['rule'] = ("(T) content images (blobs, plateaus, dim ladders, noise, few grey levels, close pairs; uint8/uint16/float; 2-D/3-D) pasted at two "
                             "integer offsets into blank canvases that keep margin + radius + max_iterations + filter reach from the edge, canvas size equal or "
                             "different, incl. two 1200x1000 canvases; locate parameters random; "
@@ -1457,6 +1659,7 @@ def run(chk):
                             "(B) 3-8 frames incl. blank ones, with/without frame_no, shuffled, processes 1/2/4(/auto); "
                             "(B2) 12-frame movies of ndarray-subclass frames numbered from 14..40 (frame_no kept or lost when pickled): sub-clip [3:9], reversed, strided, "
                             "reversed strided selections with processes 1/2/3 against the full movie's rows of those frames and against locate per frame; "
+                            "(H) 11..18 x 11..18 uint8/uint16/int16 images (1-3 blobs, sparse noise, negative pixels for int16) with random Python-level arguments of locate (scalar / tuple diameter incl. even and wrong-length ones, separation, smoothing_size, noise_size incl. wrong lengths, minmass, topn, max_iterations, percentile), preprocess=False, characterize=False, engine=python: rows or ValueError message against Model/LocatePipe2.locate_py and the generated Gen/locatehead.py_locate; "
                             "Coq: discrete pipeline model vs grey_dilation+refine_com_arr, whole-pipeline model (incl. where_close, minmass, topn) vs locate's final table, model on two placements and on the transpose, verified table monitor. "
                             "non-trivial = at least one feature located; distinct by content hash")
     chk.assumptions += [
@@ -1465,14 +1668,20 @@ def run(chk):
         "np.percentile enters the theorems as a section variable: invariant under permutation, non-negative on non-negative samples",
         "Pool.imap hands results out in task order (modelled: completion order arbitrary, hand-out by index); that the workers compute what locate computes in-process is tested, not proved",
         "ecc (cos/sin masks) and the noise statistics (mean/std of background pixels) are float computations outside the model",
-        "numba engine runs interpreted (numba absent)"]
+        "numba engine runs interpreted (numba absent)",
+        "route T (head of locate): tools/py2coq_locatehead.py (fail-closed) and the vocabulary Model/PyLocatehead.v are trusted; the generated locate equals the model for integer images, preprocess=False, the pure-python engine (C09_gen_locate_is_model_partial); float images, engine='numba' and the arithmetic inside bandpass for integer images are covered by the correspondence runs only"]
 
 
 def replay(chk, path):
     common.quiet_trackpy()
-    chk.coq()
+    head_ok, translated = build(chk)
     j = json.load(open(path))['replay']
     k = j.get('kind')
+    if k == 'head':
+        c = unj_head(j)
+        used = run_head(chk, [c], use_gen=translated)
+        print('replay: locate returned', used[0][1] if used else '(skipped: equal masses)')
+        return
     if k == 'translation':
         c = unj_translation(j)
         r = eval_translation(chk, c)
